@@ -6,7 +6,7 @@ patch="$1"; shift
 cd /repo || exit 2
 if ! git diff --quiet; then echo "repo working tree not clean" >&2; exit 2; fi
 if ! git apply --3way "$patch" 2>/tmp/try_mut.err && ! git apply "$patch" 2>>/tmp/try_mut.err; then
-  cat /tmp/try_mut.err >&2; git checkout -- . ; git reset -q; exit 3
+  cat /tmp/try_mut.err >&2; git checkout HEAD -- . ; git reset -q; exit 3
 fi
 git reset -q
 cd /verif && VERIF_EVIDENCE_DIR=/tmp/mutation-evidence VERIF_REPLAY_DIR=/tmp/mutation-replays ./check "$@"; rc=$?
